@@ -247,10 +247,7 @@ class Obs:
 
             r_length = []
             for r_name in e_content[e_name]:
-                if isinstance(self.idl[r_name], range):
-                    r_length.append(len(self.idl[r_name]) * self.idl[r_name].step // gapsize)
-                else:
-                    r_length.append((self.idl[r_name][-1] - self.idl[r_name][0]) // gapsize + 1)
+                r_length.append((self.idl[r_name][-1] - self.idl[r_name][0]) // gapsize + 1)
 
             e_N = np.sum([self.shape[r_name] for r_name in e_content[e_name]])
             w_max = max(r_length) // 2
